@@ -64,13 +64,16 @@ Record codefacts := mkFacts {
   cf_rename_check : bool;     (* Rename checks the count for the mailboxes it creates *)
   cf_limit_norecover : bool;  (* Append does not fall back to the recovery mailbox on a limit error *)
   cf_erase_late : bool;       (* move out of recovery erases the hashes after the label step *)
-  cf_raw_fallback : bool      (* MessageHashesMap.Insert tracks a literal without content hash by the hash of its bytes *)
+  cf_raw_fallback : bool;     (* MessageHashesMap.Insert tracks a literal without content hash by the hash of its bytes *)
+  cf_create_gen_in_tx : bool  (* State.Create generates the UIDVALIDITY inside the write transaction: a name refused before
+                                 the transaction starts consumes no value *)
 }.
 
 Definition facts_now : codefacts :=
   mkFacts fact_append_rechecks_in_write_tx fact_create_counts_new_mailboxes fact_rename_checks_count
-          fact_append_limit_error_skips_recovery fact_recovery_erase_after_add fact_insert_falls_back_to_raw_hash.
-Definition facts_fixed : codefacts := mkFacts true true true true true true.
+          fact_append_limit_error_skips_recovery fact_recovery_erase_after_add fact_insert_falls_back_to_raw_hash
+          fact_create_generates_in_write_tx.
+Definition facts_fixed : codefacts := mkFacts true true true true true true true.
 
 (* ---- limits (true = refused) ---- *)
 Definition lim_count (c : cfg) (n : Z) : bool :=
@@ -358,7 +361,10 @@ Definition op_expunge (s : store) (name : path) (uids : list Z) (remote_ok : boo
 Definition missing (l : list mbox) (ps : list path) : list path := filter (fun p => negb (exists_name p l)) ps.
 Definition add_all (ps : list path) (v : Z) (s : store) : store := fold_left (fun st p => add_mbox p v st) ps s.
 
+Definition bad_create_name (name : path) : bool :=
+  recov_prefixed name || is_inbox name || match name with [] => true | _ => false end.
 Definition op_create (s : store) (name : path) (remote_ok : bool) : store * result :=
+  if cf_create_gen_in_tx fx && bad_create_name name then (s, ResNo) else
   let (g, s1) := gen_next clock s in
   match g with
   | None => (s1, ResNo)
